@@ -118,7 +118,7 @@ STRENGTH = {
  # sixth round (one change H per property, same rules, told to avoid rounds 1-5)
  "C01-H": "first detection had no concrete input (the regenerated Build no longer matched); for a third of the small policies the policies that list the same names with the allow/trace boundary elsewhere, in another order, with another default, and the same policy again are now built in the same process",
  "C02-H": "missed at first; chains of 36..42 links (in the last component, or half of them in directory components) are now resolved against the kernel, and C02_gen_link_budget ties the comparison and the constant",
- "C03-H": "missed at first; forked processes and the main process may now replace their image by execve in the middle of the program (new probe command `exec`)",
+ "C03-H": "missed at first; forked processes and the main process may now replace their image by execve in the middle of the program (new probe command `exec`), a third of the programs do so often, and the main process collects some forked processes only at the end (so that no other stop of the survivor comes between the exec and its next call)",
  "C05-H": "missed at first; several configurations (from NewDefaultBuilder and NewBuilder) are now prepared before any of them is used and each sandbox must get the table its own builder calls declared",
  "C06-H": "missed at first; launches are now also made while four goroutines of the launcher loop over unixsocket.NewSocketPair and memfd.DupToMemfd",
  "C08-H": "missed at first; the file-size and CPU limits are now also exhausted by a forked child (the parent waits and exits 128+signal) and by a second thread",
@@ -129,6 +129,7 @@ STRENGTH = {
  "C14-H": "first detection had no concrete input (regenerated handleOpen no longer matched); a regular file and a directory are now exchanged from outside, through a shared writable bind, under batches that also ask for an untouched file",
  "C15-H": "missed at first; openat2 is now called with every size of the open_how block a program can claim (0..23, 25, huge) and with short readable blocks",
  "C16-H": "missed by inspection: extended before its first run on reading the description (the window itself, a controller killed before its init armed the parent-death signal, cannot be reached from outside): the end-of-file rule of the model is now tried on the real socket pair and the socket type is a regenerated fact (C16_gen_socket_is_seqpacket)",
+ "C17-H": "missed at first, and detected without a concrete input since: C17_gen_etxtbsy_retried (the regenerated launch code retries the exec after ETXTBSY for every option set of a family, with a filter too). A run-level case (a freshly written program started next to launches that are slow at their synchronisation point) was tried and withdrawn: the unchanged code's tolerance is itself 50 attempts a millisecond apart, so the case raised alarms on the unchanged tree",
  "C19-H": "first detection had no concrete input (regenerated RecvMsg no longer matched); programs are now launched by another goroutine while messages of 200 descriptors are being received, and none may inherit the file",
  "C20-H": "missed at first; after a limit was written through a handle somebody else changes the file and the handle writes its limit again: the file must hold it",
 }
